@@ -74,6 +74,25 @@ func ruleIX0(p *Prog) *RuleResult {
 						if len(sliceBack(iff.Cond, isLen)) > 0 {
 							guarded = p.ipos(iff)
 						}
+						// or a test on the answer of a helper that was given the slice and looks at its length
+						if len(sliceBack(iff.Cond, func(v ssa.Value) bool {
+							c, ok := v.(*ssa.Call)
+							if !ok || c.Call.IsInvoke() {
+								return false
+							}
+							h := c.Call.StaticCallee()
+							if h == nil || h.Blocks == nil || !inRepo(h) {
+								return false
+							}
+							for i, a := range c.Call.Args {
+								if a == ssa.Value(prm) && i < len(h.Params) && looksAtLen(h, h.Params[i]) {
+									return true
+								}
+							}
+							return false
+						})) > 0 {
+							guarded = p.ipos(iff) + " (through a helper that tests the length)"
+						}
 					}
 					// a range loop over the slice establishes the length as well
 					if guarded == "" {
@@ -98,4 +117,29 @@ func ruleIX0(p *Prog) *RuleResult {
 		}
 	}
 	return res
+}
+
+// looksAtLen: h compares len(q) with something
+func looksAtLen(h *ssa.Function, q *ssa.Parameter) bool {
+	for _, b := range h.Blocks {
+		for _, ins := range b.Instrs {
+			bo, ok := ins.(*ssa.BinOp)
+			if !ok {
+				continue
+			}
+			switch bo.Op {
+			case token.EQL, token.NEQ, token.LSS, token.LEQ, token.GTR, token.GEQ:
+			default:
+				continue
+			}
+			for _, o := range []ssa.Value{bo.X, bo.Y} {
+				if c, ok := o.(*ssa.Call); ok {
+					if bi, ok := c.Call.Value.(*ssa.Builtin); ok && bi.Name() == "len" && len(c.Call.Args) == 1 && c.Call.Args[0] == ssa.Value(q) {
+						return true
+					}
+				}
+			}
+		}
+	}
+	return false
 }
